@@ -27,6 +27,8 @@ import (
 	"encoding/hex"
 	"fmt"
 	"math/bits"
+	"os"
+	"os/exec"
 	"runtime"
 	"sort"
 	"strings"
@@ -698,6 +700,12 @@ func (h *runner) scenario(sc scenario) {
 	prev := runtime.GOMAXPROCS(0)
 	defer runtime.GOMAXPROCS(prev)
 	for _, g := range gs {
+		cur := map[string]interface{}{"GOMAXPROCS": g}
+		for k, v := range base {
+			cur[k] = v
+		}
+		c.Begin("ReproduceExpectedPCR0 must return (a result exactly when the requested value is reachable) without crashing",
+			"pkg/bootflow/subsystems/trustchains/tpm/pcrbruteforcer/reproduce_expected_pcr0.go", cur)
 		runtime.GOMAXPROCS(g)
 		o := run(sc.log, sc.alg, target, sc.st, 20*time.Second)
 		runtime.GOMAXPROCS(prev)
@@ -1195,6 +1203,23 @@ func (h *runner) probes() {
 }
 
 func main() {
+	// A panic in a goroutine started by the code under test cannot be recovered and kills
+	// the process.  Run the work in a child with GOTRACEBACK=none so that the output ends with
+	// the "panic: ..." line: the driver keeps the tail of the output and then reports the
+	// input recorded by ctx.Begin as the failing input.
+	if os.Getenv("VERIF_C03_CHILD") == "" {
+		cmd := exec.Command(os.Args[0], os.Args[1:]...)
+		cmd.Env = append(os.Environ(), "VERIF_C03_CHILD=1", "GOTRACEBACK=none")
+		cmd.Stdout, cmd.Stderr = os.Stdout, os.Stderr
+		if err := cmd.Run(); err != nil {
+			if ee, ok := err.(*exec.ExitError); ok {
+				os.Exit(ee.ExitCode())
+			}
+			fmt.Fprintln(os.Stderr, "cannot start the harness child:", err)
+			os.Exit(3)
+		}
+		return
+	}
 	c := gal.New("C03", header, perShard)
 	h := &runner{c: c}
 	rng := c.Rng
